@@ -210,6 +210,9 @@ class ArrayFinalize(Contract):
             obj = sym_array(I, 'obj', [N, D], 'float')
         return [new, obj], {}, {'new': new, 'obj': obj}
 
+    def witness(self, model, case, aux):
+        return {'kind': 'independence-of-derived-samples'}
+
     def check(self, I, case, aux, out):
         P = I.ctx.prove
         new, obj = aux['new'], aux['obj']
@@ -625,3 +628,150 @@ class SetItem(Contract):
 
 
 CONTRACTS.append(SetItem())
+
+
+# ---------------------------------------------------------------------------------------------
+from pyvc.values import NTClass, Obj, SymDict, Builtin
+from pyvc import loader
+
+
+class PickleRoundTrip(Contract):
+    """C20: __setstate__(fresh, __reduce__(x)[2]) restores every attribute and the array part"""
+    target = 'FlowCal.io.FCSData.__reduce__'
+    property_ids = ('C20',)
+
+    def cases(self):
+        return [{'label': 'ndarray-state-3-tuple', 'shape': 3}, {'label': 'ndarray-state-2-tuple', 'shape': 2}]
+
+    def setup(self, I, case):
+        I.config['nd_reduce_shape'] = case['shape']
+        N, D = sym_dims(I, 'N', 'D')
+        x = sym_fcs(I, 'x', N, D, range_never_none=False)
+        return [x], {}, {'x': x, 'N': N, 'D': D}
+
+    def check(self, I, case, aux, out):
+        P = I.ctx.prove
+        x = aux['x']
+        P('reduce-returns', out.kind == 'return')
+        if out.kind != 'return':
+            return
+        rv = out.value
+        ok = isinstance(rv, Seq) and rv.kind == 'tuple' and len(rv.items) == 3
+        P('reduce-value-is-a-3-tuple(reconstruct,args,state)', ok)
+        if not ok:
+            return
+        P('reconstructor-and-args-are-the-array-ones',
+          isinstance(rv.items[0], Opaque) and rv.items[0].tag == 'ndarray_reconstruct')
+        # what pickle does on load: reconstruct an empty instance, then __setstate__(state)
+        s = sym_array(I, 'restored', [0], 'float', 'FCSData')
+        s.attrs = {}
+        env = I.module_env('FlowCal.io')
+        setstate = I.getattr_(env['FCSData'], '__setstate__')
+        try:
+            I.call(setstate, [s, rv.items[2]], {})
+            P('setstate-returns', True)
+        except PyExc as e:
+            P('setstate-returns', False)
+            return
+        attrs = new_assigned_attrs(I)
+        ps = env['_FCSDataPickleState']
+        P('every-attribute-has-a-pickle-field', isinstance(ps, NTClass) and all(a[1:] in ps.fields for a in attrs))
+        for a in attrs:
+            if a not in s.attrs:
+                P('restored.' + a, False)
+            else:
+                I.prove_forked('restored.' + a, lambda a=a: struct_eq(I, s.attrs[a], x.attrs[a]))
+        if case['shape'] == 3:
+            P('array-part-restored-by-the-superclass', getattr(s, 'restored_from', None) is x)
+
+
+def sym_fcsfile(I, name, cls, N, D):
+    c = I.ctx
+    hdr = NTClass('FCSHeader', ['version', 'text_begin', 'text_end', 'data_begin', 'data_end', 'analysis_begin',
+                                'analysis_end'])
+    o = stamp(Obj(cls))
+    o.hdr_cls = hdr
+    from pyvc.values import NT
+    o.attrs = {
+        '_infile': SV(c.fresh_str(name + '_infile'), 'str'),
+        '_header': NT(hdr, [SV(c.fresh_str(name + '_ver'), 'str')] + [SV(c.fresh_int(name + '_h%d' % k), 'int') for k in range(6)]),
+        '_text': SymDict(z3.Array(c.fresh_name(name + '_text_has'), z3.StringSort(), z3.BoolSort()),
+                         z3.Array(c.fresh_name(name + '_text_val'), z3.StringSort(), z3.StringSort())),
+        '_analysis': SymDict(z3.Array(c.fresh_name(name + '_an_has'), z3.StringSort(), z3.BoolSort()),
+                             z3.Array(c.fresh_name(name + '_an_val'), z3.StringSort(), z3.StringSort())),
+        '_data': sym_array(I, name + '_data', [N, D], 'float'),
+    }
+    return o
+
+
+class FileEq(Contract):
+    """C20: FCSFile.__eq__ is the conjunction over infile, header, text, data, analysis"""
+    target = 'FlowCal.io.FCSFile.__eq__'
+    property_ids = ('C20',)
+    assumptions = ('A-REAL: NaN is not modelled (np.array_equal on float data containing NaN is decided by the bounded check)',)
+
+    def cases(self):
+        return [{'label': 'same-class', 'other': 'file', 'ne': self.ne}, {'label': 'other-type', 'other': 'str', 'ne': self.ne}]
+
+    ne = False
+
+    def setup(self, I, case):
+        env = I.module_env('FlowCal.io')
+        cls = env['FCSFile']
+        N, D = sym_dims(I, 'N', 'D')
+        a = sym_fcsfile(I, 'a', cls, N, D)
+        if case['other'] == 'file':
+            N2, D2 = sym_dims(I, 'N2', 'D2')
+            b = sym_fcsfile(I, 'b', cls, N2, D2)
+        else:
+            b = SV(I.ctx.fresh_str('other'), 'str')
+        return [a, b], {}, {'a': a, 'b': b, 'N': N, 'D': D}
+
+    def small_hints(self, case, aux):
+        return [z3.And(aux['N'] <= 3, aux['D'] <= 3, aux['D'] >= 1, aux['N'] >= 1)]
+
+    def witness(self, model, case, aux):
+        a, b = aux['a'], aux['b']
+        if case['other'] != 'file':
+            return None
+        wa = data_witness(model, a.attrs['_data'], 'ndarray')
+        wb = data_witness(model, b.attrs['_data'], 'ndarray')
+        same_meta = all(mval(model, I_ == J_) for I_, J_ in [(a.attrs['_infile'].z, b.attrs['_infile'].z)])
+        return {'a': wa['data'], 'b': wb['data'], 'same_name': bool(same_meta), 'ne': self.ne}
+
+    def check(self, I, case, aux, out):
+        P = I.ctx.prove
+        a, b = aux['a'], aux['b']
+        P('returns', out.kind == 'return')
+        if out.kind != 'return':
+            return
+        v = out.value
+        if case['other'] != 'file':
+            P('other-types-give-NotImplemented', isinstance(v, Opaque) and v.tag == 'NotImplemented')
+            return
+        res = I.z(I.truth_value(v), 'bool')
+        da, db = a.attrs['_data'], b.attrs['_data']
+        i, j = z3.Ints('fe_i fe_j')
+        k = z3.String('fe_k')
+
+        def deq(x, y):
+            return z3.ForAll([k], z3.And(z3.Select(x.present, k) == z3.Select(y.present, k),
+                                         z3.Implies(z3.Select(x.present, k), z3.Select(x.val, k) == z3.Select(y.val, k))))
+        same_shape = z3.And(I.np.dim_z(da.shape[0]) == I.np.dim_z(db.shape[0]), I.np.dim_z(da.shape[1]) == I.np.dim_z(db.shape[1]))
+        same_events = z3.ForAll([i, j], z3.Implies(z3.And(0 <= i, i < I.np.dim_z(da.shape[0]), 0 <= j, j < I.np.dim_z(da.shape[1])),
+                                                   da.ufn(i, j) == db.ufn(i, j)))
+        hdr = z3.And(*[I.z(x) == I.z(y) for x, y in zip(a.attrs['_header'].values, b.attrs['_header'].values)])
+        spec = z3.And(I.z(a.attrs['_infile']) == I.z(b.attrs['_infile']), hdr, deq(a.attrs['_text'], b.attrs['_text']),
+                      same_shape, same_events, deq(a.attrs['_analysis'], b.attrs['_analysis']))
+        if case.get('ne'):
+            P('ne-is-the-negation-of-equality', res == z3.Not(spec))
+        else:
+            P('equal-iff-same-file-name-header-keywords-events-and-analysis', res == spec)
+
+
+class FileNe(FileEq):
+    target = 'FlowCal.io.FCSFile.__ne__'
+    ne = True
+
+
+CONTRACTS += [PickleRoundTrip(), FileEq(), FileNe()]
